@@ -92,10 +92,27 @@ def call(op: str, a: dict) -> dict:
                 # the same request with values stored in 8 bits (each fits, a sum of duplicates need not)
                 f = 40.0
                 vals = (vals * 40).astype(np.int8)
+            shape = tuple(a["shape"])
+            stretch = bind.get_layout() == "default" and len(shape) >= 2 and len(a["subs"]) > 0
+            if stretch:
+                # the same entries in an index space with more than 2^64 cells: mode 0 is stretched by 2^24 (index i
+                # becomes i 2^24 in a mode of length 2^40) and the last mode is declared 2^40 long
+                subs = subs.astype(np.int64).copy()
+                subs[:, 0] = subs[:, 0] * 2 ** 24
+                shape = (2 ** 40,) + shape[1:-1] + (2 ** 40,)
             if a["red"] == "sum" and len(a["subs"]) % 2 == 0:
-                r = ttb.sptensor.from_aggregator(subs, vals, tuple(a["shape"]))       # default reducer
+                r = ttb.sptensor.from_aggregator(subs, vals, shape)       # default reducer
             else:
-                r = ttb.sptensor.from_aggregator(subs, vals, tuple(a["shape"]), red)
+                r = ttb.sptensor.from_aggregator(subs, vals, shape, red)
+            if stretch:
+                if tuple(r.shape) != shape:
+                    return {"st": "shape-changed"}
+                rs = np.asarray(r.subs).reshape(-1, len(shape)).copy()
+                if rs.size and np.any(rs[:, 0] % 2 ** 24):
+                    return {"st": "subscript-not-among-the-given-ones"}
+                if rs.size:
+                    rs[:, 0] = rs[:, 0] // 2 ** 24
+                r = ttb.sptensor(rs, r.vals.copy(), tuple(a["shape"])) if rs.size else ttb.sptensor(shape=tuple(a["shape"]))
             if f != 1.0:
                 r = ttb.sptensor(r.subs.copy(), r.vals.astype(float) / f, r.shape) if r.nnz else r
             return {"st": "ok", "obj": bind.alpha(r)}
